@@ -68,7 +68,7 @@ for (n, tier) in [("dirent_rt_storage_2", "quick"), ("dirent_rt_root", "quick"),
 harness("dirent_unallocated_blank", props=["C03"], timeout=300, mem=4,
         what="DirEntry::unallocated().write_to produces the blank entry of MS-CFB 2.6.3 (all zeros except three NOSTREAM links)",
         bounds="concrete", functions=["DirEntry::unallocated", "DirEntry::write_to"], assumes=[])
-harness("dirent_maxname_concrete", props=["C09"], tier="thorough", timeout=2400, mem=16,
+harness("dirent_maxname_concrete", props=["C09"], tier="thorough", timeout=2400, mem=9,
         what="a 31-unit name is written verbatim with length field 64 and read back by both readers in both versions",
         bounds="one concrete 31-character name", functions=DIRENT_F, assumes=[])
 harness("dirent_root_name", props=["C16"], tier="thorough", timeout=3600, mem=16,
@@ -134,11 +134,42 @@ for (n, tier) in [("stor_write_mid", "quick"), ("stor_write_append", "thorough")
                   ("stor_resize_in_sector", "quick"), ("stor_resize_to_128", "thorough"), ("stor_resize_to_129", "quick"),
                   ("stor_resize_shrink_64", "thorough"), ("stor_resize_shrink_63", "thorough"), ("stor_resize_to_0", "quick"),
                   ("stor_resize_reuse", "quick"), ("stor_resize_frag", "thorough")]:
-    harness(n, props=["C01", "C03", "C08", "C07", "C02", "C06", "C12"] if "read" in n else ["C01", "C03", "C08", "C07", "C02"], tier=tier, timeout=3000, mem=6,
+    harness(n, props=["C01", "C03", "C08", "C07", "C02", "C06", "C12"] if "read" in n else ["C01", "C03", "C08", "C07", "C02"], tier=tier, timeout=3000, mem=9,
             stubs=[FMT] + ([] if "read" in n else [STUB_COPY]),
             what="real storage functions on a 100-byte stream in a (possibly fragmented) mini chain next to another stream: result, new length, placement by the 4096 cutoff, chain length == ceil(size/64), every stored byte (independent FAT/MiniFAT walk over the image) equals the flat-array model, gained bytes are zero even when reused mini sectors / slack hold arbitrary bytes, the other stream and the rest of the image untouched",
             bounds="offset/length/new size concrete per instance at and next to the 64-byte boundary; all data bytes and slack symbolic",
             functions=STOR_F + MINI_F, assumes=[A_SHAPE, A_IOCOPY])
+
+# ---------------------------------------------------------------- 4096-byte cutoff (large layout)
+for (n, tier) in [("big_4096_to_100", "quick"), ("big_4096_to_0", "thorough"), ("big_4096_to_5000", "thorough"),
+                  ("big_5000_to_4096", "quick"), ("big_5000_to_4097", "thorough"), ("big_5000_to_4095", "thorough"),
+                  ("big_grow_100_to_4096", "thorough"), ("big_grow_100_to_4200", "quick")]:
+    harness(n, props=["C03", "C01", "C08", "C07", "C15"], tier=tier, timeout=5400, mem=12, fs=16384, stubs=[FMT, STUB_COPY],
+            what="resize_stream across / at the 4096-byte cutoff on a file with a large stream in regular sectors and a small stream in the mini stream: placement by the cutoff (a 4096-byte stream is regular), chain length == ceil(size/sector), kept bytes kept, gained bytes zero (stale slack of the last mini sector must not migrate), released sectors FREE, the other stream untouched",
+            bounds="old/new length concrete per instance (4095/4096/4097/5000/100/0/4200); first and last sector of the large stream, the small stream and its slack symbolic",
+            functions=STOR_F + MINI_F + ALLOC_F, assumes=[A_SHAPE, A_IOCOPY])
+for (n, tier) in [("big_remove_4096", "quick"), ("big_remove_4097", "thorough")]:
+    harness(n, props=["C01", "C07", "C15", "C03"], tier=tier, timeout=5400, mem=12, fs=16384, stubs=[FMT, STUB_COPY, STUB_UP, "OsStr :: to_str"],
+            what="CompoundFile::remove_stream of a stream of exactly 4096 (4097) bytes: its regular chain is freed, the MiniFAT and the small stream's mini chain are untouched, the entry is released, lookups agree",
+            bounds="concrete length at the cutoff; symbolic contents", functions=["CompoundFile::remove_stream", "Directory::remove_dir_entry"] + ALLOC_F + MINI_F, assumes=[A_SHAPE, A_UPTABLE])
+
+# ---------------------------------------------------------------- open() on a small unusual layout
+OPEN_F = ["CompoundFile::open_internal", "Header::read_from", "Allocator::new", "Allocator::validate", "Directory::new", "Directory::validate",
+          "MiniAllocator::new", "MiniAllocator::validate", "DirEntry::read_from", "Chain::new", "Chain::read", "Entries::next", "Stream::read"]
+for (n, tier) in [("open_valid_permissive", "quick"), ("open_valid_strict", "thorough")]:
+    harness(n, props=["C04", "C02", "C16", "C05", "C17"], tier=tier, timeout=5400, mem=12, fs=8192, stubs=[FMT, STUB_UP, "OsStr :: to_str"],
+            what="open_internal on a valid file laid out unlike this crate's writer (FAT in sector 1, directory chain 4 -> 0 so that the physically last sector's FAT cell is 0, red nodes, unallocated slots): accepted, caches (FAT, MiniFAT, all 8 directory entries) equal what the image encodes, lookups by other letter case, metadata and the bytes of a fragmented mini stream read back",
+            bounds="6-sector v3 image; mini stream contents and metadata symbolic", functions=OPEN_F, assumes=[A_SHAPE, A_UPTABLE])
+harness("open_bogus_minifat_then_write", props=["C11", "C05"], tier="quick", timeout=5400, mem=12, fs=8192, stubs=[FMT, STUB_COPY, STUB_UP],
+        what="for EVERY value of the header's first-MiniFAT-sector field on a file with an empty mini stream: if permissive open accepts the file, writing a small stream afterwards returns Ok or Err without panicking or looping",
+        bounds="first_minifat_sector: all u32; 6-sector image", functions=OPEN_F + STOR_F + MINI_F, assumes=[A_SHAPE, A_IOCOPY])
+
+# ---------------------------------------------------------------- DIFAT growth (> 109 FAT sectors) on a sparse file
+for (n, tier) in [("difat_first_sector", "quick"), ("difat_last_slot", "thorough"), ("difat_second_sector", "quick")]:
+    harness(n, props=["C03", "C02"], tier=tier, timeout=5400, mem=12, stubs=[FMT],
+            what="append_fat_sector with 109 / 235 / 236 existing FAT sectors: DIFAT entry lands in the right DIFAT sector slot (a DIFAT sector holds 127 entries, slot 127 is the chain pointer), new DIFAT sectors are created, initialised (FREE entries, END_OF_CHAIN link), linked from the previous one and counted in the header; FAT cells of the new sectors written through; no other sector touched",
+            bounds="exactly these three table sizes; v3; sparse 15 MB file of 5 pages with arbitrary previous content", functions=["Allocator::append_fat_sector", "Allocator::set_fat", "Sectors::init_sector", "SectorInit::initialize"],
+            assumes=["environment: sparse file model - only the header and the sectors the scenario may legitimately touch exist; touching any other sector is an assertion failure"])
 
 # ---------------------------------------------------------------- API level
 API_F = ["CompoundFile::create_stream", "CompoundFile::create_new_stream", "CompoundFile::create_storage", "CompoundFile::create_storage_all",
@@ -167,7 +198,7 @@ CACHE_F = ["Stream::read", "Stream::fill_buf", "Stream::consume", "Stream::write
            "Stream::flush_changes", "Stream::new", "FlushBuffer::flush_changes", "StreamBuffer::*"]
 for (n, tier, to) in [("cache_hist2_min", "quick", 3000), ("cache_hist2_b12", "quick", 3000), ("cache_hist3_min", "thorough", 7200),
                       ("cache_hist3_b12", "thorough", 7200), ("cache_hist3_b32", "thorough", 7200), ("cache_hist4_min", "thorough", 14400)]:
-    harness(n, props=["C06", "C18", "C02", "C13", "C10"], tier=tier, timeout=to, mem=24, variant="buf8", fs=8192, stubs=STUB_CACHE,
+    harness(n, props=["C06", "C18", "C02", "C13", "C10"], tier=tier, timeout=to, mem=16, variant="buf8", fs=8192, stubs=STUB_CACHE,
             what="k symbolically chosen calls (read n<=12, write n<=12 symbolic bytes, seek Start/Current/End, set_len<=40, flush) on a handle over a 20-byte stream, compared after every call with a byte vector + cursor (result, bytes, position, len()); final flush leaves exactly the model bytes in storage and flushes the file",
             bounds="k = %s calls, max_buffer_size %s on the scaled 8-byte minimum" % (n[10], "0 (clamped)" if n.endswith("min") else n.split("_b")[1]),
             functions=CACHE_F, assumes=[A_MODEL, A_BUF8, A_UPG])
@@ -175,17 +206,17 @@ for (n, tier, to) in [("cache_hist2_min", "quick", 3000), ("cache_hist2_b12", "q
 # ---------------------------------------------------------------- lock discipline (variant lock)
 A_LOCK = "overlay: std::sync::RwLock replaced by an instrumented single-threaded lock that asserts no guard is live on acquisition and lets try_read/try_write fail nondeterministically; thread schedules are NOT explored"
 for n in ["c14_readonly_methods", "c14_stream_ops"]:
-    harness(n, props=["C14"], timeout=3000, mem=12, variant="lock", fs=8192, stubs=[FMT, STUB_UP],
+    harness(n, props=["C14"], timeout=3000, mem=10, variant="lock", fs=8192, stubs=[FMT, STUB_UP],
             what="every read-only method, every iterator step (with read-only calls interleaved while the iterator is alive) and every stream operation acquires the lock only while no guard is live and releases it before returning",
             bounds="3-entry file; one call sequence; symbolic contents/metadata", functions=["CompoundFile::*(read-only)", "Entries::next", "Entries::new", "Stream::*"],
             assumes=[A_LOCK, A_SHAPE, A_UPTABLE])
 
 # ---------------------------------------------------------------- faults (C12 / C13)
 A_FAULT = "environment: FaultyFile - each read/write/seek/flush of the armed phase may fail (solver-chosen, budget 1)"
-harness("c12_read_fault_retry", props=["C12"], timeout=3000, mem=12, variant="buf8", fs=8192, stubs=[FMT, "Stream :: minialloc"],
+harness("c12_read_fault_retry", props=["C12"], timeout=3000, mem=10, variant="buf8", fs=8192, stubs=[FMT, "Stream :: minialloc"],
         what="second buffered read of a 100-byte stream with one read/seek fault anywhere in the refill: Ok results equal the true content; after Err the position is unchanged and the retry returns the true content",
         bounds="8-byte window (scaled), one fault among all underlying read/seek calls of the refill", functions=CACHE_F + STOR_F, assumes=[A_FAULT, A_BUF8, A_UPG, A_SHAPE])
-harness("c13_flush_fault_retry", props=["C13"], timeout=3000, mem=12, variant="buf8", fs=8192, stubs=[FMT, STUB_COPY, "Stream :: minialloc"],
+harness("c13_flush_fault_retry", props=["C13"], timeout=3000, mem=10, variant="buf8", fs=8192, stubs=[FMT, STUB_COPY, "Stream :: minialloc"],
         what="buffered 6-byte write then flush with one write/seek/flush fault anywhere: the fault surfaces as Err; a later flush that returns Ok means a fresh handle reads the bytes back",
         bounds="one fault among all underlying write/seek/flush calls of the write-back", functions=CACHE_F + STOR_F, assumes=[A_FAULT, A_BUF8, A_UPG, A_SHAPE])
 harness("c13_free_fault_retry", props=["C13"], timeout=1800, mem=10, stubs=[FMT],
@@ -195,7 +226,7 @@ harness("c13_free_fault_retry", props=["C13"], timeout=1800, mem=10, stubs=[FMT]
 # ---------------------------------------------------------------- chunked transfers (C18)
 A_CHUNK = "environment: ChunkyFile - every read/write may transfer a solver-chosen short count or return Interrupted (budget 2)"
 for (n, tier) in [("chunky_init_zero", "quick"), ("chunky_init_fat", "quick"), ("chunky_dirent_roundtrip", "thorough"), ("chunky_stor_write_read", "thorough")]:
-    harness(n, props=["C18"], tier=tier, timeout=3000, mem=16, stubs=[FMT] + ([STUB_COPY] if n != "chunky_dirent_roundtrip" else []),
+    harness(n, props=["C18"], tier=tier, timeout=3000, mem=10, stubs=[FMT] + ([STUB_COPY] if n != "chunky_dirent_roundtrip" else []),
             what="same assertions as the plain harness, over a backend that splits or interrupts transfers arbitrarily",
             bounds="two short/interrupted transfers per harness", functions=["Sectors::init_sector", "SectorInit::initialize", "DirEntry::write_to", "DirEntry::read_from"] + STOR_F,
             assumes=[A_CHUNK, A_IOCOPY])
